@@ -20,8 +20,8 @@ func init() {
 	core.Register(&core.Check{
 		ID: "C37", Level: "other", Title: "Transaction pool bookkeeping is consistent under concurrency",
 		Technique: "lock discipline (per-object lockset over SSA with call-site transfer), key/value agreement of map writes, guard dominance and loop-exit reasoning",
-		Explain: "Structural necessary conditions decided on the SSA of txnpool/common and txnpool/proc. (LS) Frozen guard table — TXPool.txList by the embedded RWMutex; TXPoolServer.{allPendingTxs,height,gasPrice} by mu; pendingBlock.{sender,height,processedTxs,unProcessedTxs} by mu; registerValidators.{entries,state} and txStats.count by their embedded RWMutex: every read holds the mutex of the same object shared or exclusive, every write (field store, map insert, delete, element store) holds it exclusively, on every path; helpers are discharged at their call sites; freshly allocated objects are exempt. (Keys) every insertion txList[k] = e has k = e.Tx.Hash() and is dominated by the miss edge of a lookup of the same key under the same critical section (no two entries per hash); allPendingTxs likewise. (GetTxPool) an entry is appended to the returned list only on the compareTxHeight==true edge, the others go to the old list; the loop leaves as soon as num >= count with num incremented once per append, and count <= MaxTxInBlock when byCount. (Clean) CleanTransactionList/DelTxList/GetUnverifiedTxs delete only keys computed as Hash() of the given transactions (or of the Tx of an entry just read from the pool, whose key is that hash by the key rule). NOT decided: linearizability of interleavings; the capacity test (slots/MAX_LIMITATION) is a check-then-act outside one critical section and is not claimed.",
-		Run: runC37,
+		Explain:   "Structural necessary conditions decided on the SSA of txnpool/common and txnpool/proc. (LS) Frozen guard table — TXPool.txList by the embedded RWMutex; TXPoolServer.{allPendingTxs,height,gasPrice} by mu; pendingBlock.{sender,height,processedTxs,unProcessedTxs} by mu; registerValidators.{entries,state} and txStats.count by their embedded RWMutex: every read holds the mutex of the same object shared or exclusive, every write (field store, map insert, delete, element store) holds it exclusively, on every path; helpers are discharged at their call sites; freshly allocated objects are exempt. (Keys) every insertion txList[k] = e has k = e.Tx.Hash() and is dominated by the miss edge of a lookup of the same key under the same critical section (no two entries per hash); allPendingTxs likewise. (GetTxPool) an entry is appended to the returned list only on the compareTxHeight==true edge, the others go to the old list; the loop leaves as soon as num >= count with num incremented once per append, and count <= MaxTxInBlock when byCount. (Clean) CleanTransactionList/DelTxList/GetUnverifiedTxs delete only keys computed as Hash() of the given transactions (or of the Tx of an entry just read from the pool, whose key is that hash by the key rule). NOT decided: linearizability of interleavings; the capacity test (slots/MAX_LIMITATION) is a check-then-act outside one critical section and is not claimed.",
+		Run:       runC37,
 	})
 }
 
